@@ -403,14 +403,16 @@ Definition chk (k : adapter) (batch : nat) (h : list op) (with_del : bool) (outs
 Definition obs := (string * option file * option (option (list rec)))%type.
 Fixpoint find_obs (name : string) (l : list obs) : option obs :=
   match l with [] => None | (n, f, r) :: t => if String.eqb n name then Some (n, f, r) else find_obs name t end.
-(* the split writer: history h then del; the parts on disk, by name *)
-Definition chk_split (k : adapter) (count suffix_length : nat) (name : string) (h : list op) (outs : list outcome)
-                     (parts : list obs) : bool :=
-  let st := fst (split_run writer_shapes 1000 k count (split_init k) (h ++ [Del])) in
-  list_eqb outcome_eqb (split_outcomes writer_shapes 1000 k count (split_init k) h) outs
+(* the split writer: history h then del; the parts on disk, by name.  (netloc, path) = urlparse of the path the
+   SplitWriter receives: a target taken for stdout is one unsuffixed output that never rolls over *)
+Definition chk_split (k : adapter) (count suffix_length : nat) (name netloc path : string) (h : list op)
+                     (outs : list outcome) (parts : list obs) : bool :=
+  let stdout := split_is_stdout writer_shapes netloc path in
+  let st := fst (split_run writer_shapes 1000 k count stdout (split_init k) (h ++ [Del])) in
+  list_eqb outcome_eqb (split_outcomes writer_shapes 1000 k count stdout (split_init k) h) outs
   && Nat.eqb (List.length (split_files st)) (List.length parts)
   && forallb (fun nf =>
-       match find_obs (part_name name suffix_length (N.of_nat (fst nf))) parts with
+       match find_obs (if stdout then name else part_name name suffix_length (N.of_nat (fst nf))) parts with
        | Some (_, f, r) => file_same (snd nf) f && reader_same (readable (snd nf)) r
        | None => false
        end) (split_files st).
@@ -559,13 +561,35 @@ def history_plan(tier):
 # ------------------------------------------------------------------------------------------------------
 # 2. split
 
-def split_uri(tname, path, count, suf):
+INNER_SCHEME = {"jsonfile": "jsonfile", "jsonl": "jsonfile", "avro": "avro", "csvfile": "csvfile"}
+
+
+def split_uri(tname, path, count, suf, scheme=False):
+    """scheme: spell the inner adapter explicitly also for the stream family (split+stream://...)"""
     k, family, ext, wuri, ruri, codec, batch = TARGETS[tname]
     q = "?count=%d&suffix-length=%d" % (count, suf)
     if family == "stream":
-        return "split://" + path + q
-    scheme = {"jsonfile": "jsonfile", "jsonl": "jsonfile", "avro": "avro", "csvfile": "csvfile"}[tname]
-    return "split+%s://%s%s" % (scheme, path, q)
+        return ("split+stream://" if scheme else "split://") + path + q
+    return "split+%s://%s%s" % (INNER_SCHEME[tname], path, q)
+
+
+def rdump_target(tname, path, scheme=False):
+    k, family, ext, wuri, ruri, codec, batch = TARGETS[tname]
+    if family == "stream":
+        return ("stream://" + path) if scheme else path
+    return ("%s://%s" % (INNER_SCHEME[tname], path)) if scheme else path
+
+
+def split_target_parts(uri):
+    """(netloc, path) of urlparse(<the path SplitWriter is constructed with>), as RecordAdapter derives it from the URI"""
+    from urllib.parse import urlparse
+    p = urlparse(uri)
+    adapter, _, sub = p.scheme.partition("+")
+    cls_url = p.netloc + p.path
+    if sub:
+        cls_url = sub + "://" + cls_url
+    q = urlparse(cls_url)
+    return q.netloc, q.path
 
 
 def split_bare_empty_close(hist, count):
@@ -594,60 +618,71 @@ def expected_part_name(base, suf, i):
     return str(p.with_suffix("." + str(i).zfill(suf) + p.suffix))
 
 
-def run_split(tname, hist, count, suf, workdir, via="writer"):
-    """-> (outs, written, {part name: obs}, raw-concat reader result or None, dir)"""
+def run_split(tname, hist, count, suf, workdir, via="writer", spelling="abs"):
+    """spelling: "abs" = absolute path; "bare" = bare relative file name (cwd is the output directory);
+    "bare+scheme" = bare name behind an explicit inner adapter scheme (urlparse puts the name into netloc).
+    -> (outs, written, {part name: obs}, errors, dir, base, (netloc, path))"""
     from flow.record import RecordReader, RecordWriter
     k, family, ext, wuri, ruri, codec, batch = TARGETS[tname]
     d = os.path.join(workdir, "split")
     shutil.rmtree(d, ignore_errors=True)
     os.makedirs(d)
     base = "out" + ext
-    path = os.path.join(d, base)
+    path = os.path.join(d, base) if spelling == "abs" else base
+    scheme = spelling == "bare+scheme"
     outs, written, errors = [], [], []
-    if via == "rdump":
-        from flow.record.tools import rdump
-        inp = os.path.join(workdir, "split-input.records")
-        recs = [(op[1], i) for i, op in enumerate(o for o in hist if o[0] == "W")]
-        with RecordWriter(inp) as w:
-            for letter, i in recs:
-                w.write(mkrec(letter, i))
-        target = path if family in ("stream",) or tname in ("jsonfile", "jsonl", "avro", "csvfile") else path
-        rdump.main([inp, "--split=%d" % count, "--suffix-length=%d" % suf, "-w", target])
-        outs = ["Ok"] * len(hist)
-        written = recs
-    else:
-        w = RecordWriter(split_uri(tname, path, count, suf))
-        nid = 0
-        for op in hist:
-            try:
-                if op[0] == "W":
-                    r = mkrec(op[1], nid)
-                    nid += 1
-                    w.write(r)
-                    written.append((op[1], nid - 1))
-                elif op == "F":
-                    w.flush()
-                elif op == "C":
-                    w.close()
-                elif op == "X":
-                    w.__exit__(None, None, None)
-                outs.append("Ok")
-            except Exception as e:  # noqa
-                outs.append("Raised")
-                errors.append("%s: %s" % (type(e).__name__, str(e)[:80]))
-        del w
-        gc.collect()
+    cwd = os.getcwd()
+    if spelling != "abs":
+        os.chdir(d)
+    try:
+        if via == "rdump":
+            from flow.record.tools import rdump
+            inp = os.path.join(workdir, "split-input.records")
+            recs = [(op[1], i) for i, op in enumerate(o for o in hist if o[0] == "W")]
+            with RecordWriter(inp) as w:
+                for letter, i in recs:
+                    w.write(mkrec(letter, i))
+            target = rdump_target(tname, path, scheme)
+            uri = ("split://" + target) if "://" not in target else ("split+" + target)
+            rdump.main([inp, "--split=%d" % count, "--suffix-length=%d" % suf, "-w", target])
+            outs = ["Ok"] * len(hist)
+            written = recs
+        else:
+            uri = split_uri(tname, path, count, suf, scheme)
+            w = RecordWriter(uri)
+            nid = 0
+            for op in hist:
+                try:
+                    if op[0] == "W":
+                        r = mkrec(op[1], nid)
+                        nid += 1
+                        w.write(r)
+                        written.append((op[1], nid - 1))
+                    elif op == "F":
+                        w.flush()
+                    elif op == "C":
+                        w.close()
+                    elif op == "X":
+                        w.__exit__(None, None, None)
+                    outs.append("Ok")
+                except Exception as e:  # noqa
+                    outs.append("Raised")
+                    errors.append("%s: %s" % (type(e).__name__, str(e)[:80]))
+            del w
+            gc.collect()
+    finally:
+        os.chdir(cwd)
     parts = {}
     for name in sorted(os.listdir(d)):
         p = os.path.join(d, name)
         parts[name] = observe_file(family, codec, p, (ruri.format(p=p) if ruri else None))
-    return outs, written, parts, errors, d, base
+    return outs, written, parts, errors, d, base, split_target_parts(uri)
 
 
-def split_case(tname, hist, count, suf, workdir, via="writer", matrix=True):
+def split_case(tname, hist, count, suf, workdir, via="writer", matrix=True, spelling="abs"):
     from flow.record import RecordReader
     k, family, ext, wuri, ruri, codec, batch = TARGETS[tname]
-    outs, written, parts, errors, d, base = run_split(tname, hist, count, suf, workdir, via)
+    outs, written, parts, errors, d, base, (netloc, upath) = run_split(tname, hist, count, suf, workdir, via, spelling)
     problems = []
     unreadable_empty = []
     # names: the parts are numbered 0 .. m-1
@@ -706,18 +741,19 @@ def split_case(tname, hist, count, suf, workdir, via="writer", matrix=True):
         kcase = dict(adapter=family, via="split", klass="bare-close-first" if (bare and only_empty and len(unreadable_empty) == 1) else None,
                      symptom="zero-byte-stream" if only_empty else None)
     terms = []
-    if via == "writer":
-        has_reader = ruri is not None
-        obs_terms = clist(["(%s, %s, %s)" % (cstr(name), _opt(c_file(family, o)), c_reader(o, has_reader))
-                           for name, o in sorted(parts.items())])
-        terms.append("chk_split %s %d %d %s %s %s %s" % (k, count, suf, cstr(base), c_ops(hist), c_outs(outs), obs_terms))
+    has_reader = ruri is not None
+    obs_terms = clist(["(%s, %s, %s)" % (cstr(name), _opt(c_file(family, o)), c_reader(o, has_reader))
+                       for name, o in sorted(parts.items())])
+    terms.append("chk_split %s %d %d %s %s %s %s %s %s" % (k, count, suf, cstr(base), cstr(netloc), cstr(upath), c_ops(hist),
+                                                        c_outs(outs), obs_terms))
     meta = dict(kind="split", target=tname, history=list(hist), count=count, suffix_length=suf, via=via, matrix=matrix,
-                outcomes=outs, errors=errors, parts={n_: _obs_brief(o) for n_, o in parts.items()})
+                spelling=spelling, urlparse=[netloc, upath], outcomes=outs, errors=errors,
+                parts={n_: _obs_brief(o) for n_, o in parts.items()})
     return Case(terms, meta, problems, kcase)
 
 
 def split_plan(tier):
-    """(target, n, count, suffix_length, closing op, via)"""
+    """(target, n, count, suffix_length, closing op, via[, spelling])"""
     tg = available_targets()
     plan = []
     ns = list(range(0, 8)) + [10, 12] if tier == "quick" else list(range(0, 14)) + [20, 25, 101]
@@ -737,6 +773,16 @@ def split_plan(tier):
             for n, count in ((0, 3), (6, 3), (7, 3)):
                 plan.append((t, n, count, 2, "X", "rdump"))
             plan.append((t, 5, 2, 4, "X", "rdump"))
+    # other spellings of the target: a bare relative file name, with and without an explicit inner adapter scheme
+    bare = [("stream", "bare"), ("stream", "bare+scheme"), ("stream.gz", "bare+scheme"), ("jsonl", "bare+scheme"),
+            ("jsonfile", "bare+scheme"), ("jsonfile", "bare"), ("csvfile", "bare+scheme")]
+    ns3 = [0, 1, 4, 5] if tier == "quick" else [0, 1, 2, 3, 4, 5, 6, 9, 23]
+    for (t, sp), n, closing in itertools.product(bare, ns3, ("X", "C")):
+        if t in tg and not (t == "jsonfile" and sp == "bare" and False):
+            plan.append((t, n, 2, 2, closing, "writer", sp))
+    for (t, sp), (n, count) in itertools.product(bare, ((5, 2), (6, 3)) if tier == "quick" else ((0, 3), (5, 2), (6, 3), (23, 5))):
+        if t in tg:
+            plan.append((t, n, count, 2, "X", "rdump", sp))
     return plan
 
 
@@ -1031,7 +1077,7 @@ def _run_job(job):
         if kind == "history":
             return history_case(args[0], args[1], wd)
         if kind == "split":
-            return split_case(args[0], args[1], args[2], args[3], wd, args[4], matrix=args[5])
+            return split_case(args[0], args[1], args[2], args[3], wd, args[4], matrix=args[5], spelling=args[6])
         if kind == "rotation":
             return rotation_case(args[0], args[1], args[2], args[3], wd, args[4])
         raise ValueError(kind)
@@ -1041,7 +1087,8 @@ def _run_job(job):
         if kind == "history":
             meta.update(target=args[0], history=list(args[1]))
         elif kind == "split":
-            meta.update(target=args[0], history=list(args[1]), count=args[2], suffix_length=args[3], via=args[4], matrix=args[5])
+            meta.update(target=args[0], history=list(args[1]), count=args[2], suffix_length=args[3], via=args[4], matrix=args[5],
+                        spelling=args[6])
         else:
             meta.update(template=args[0], ops=[list(o) if o != "C" else "C" for o in args[1]], clock=args[2], pre=args[3], archive=args[4])
         return Case([], meta, ["running the case raised %s: %s" % (type(e).__name__, str(e)[:200])], None)
@@ -1056,17 +1103,20 @@ def plan_jobs(ctx):
             jobs.append((("history", root, (tname, hist)), ("history", tname, hist), len(hist) > 0))
     ctx.notes.append("histories: " + ", ".join("%s<=%d" % kv for kv in history_plan(ctx.tier).items()))
     nsplit = 0
-    for tname, n, count, suf, closing, via in split_plan(ctx.tier):
+    for item in split_plan(ctx.tier):
+        tname, n, count, suf, closing, via = item[:6]
+        spelling = item[6] if len(item) > 6 else "abs"
         letters = "A" if tname == "avro" else "AB"
         hist = tuple("W" + letters[i % len(letters)] for i in range(n)) + ((closing,) if closing != "Del" else ())
         nsplit += 1
-        jobs.append((("split", root, (tname, hist, count, suf, via, True)), ("split", tname, n, count, suf, closing, via), True))
+        jobs.append((("split", root, (tname, hist, count, suf, via, True, spelling)),
+                     ("split", tname, n, count, suf, closing, via, spelling), True))
     # the split writer under arbitrary small histories
     maxlen = 3 if ctx.tier == "quick" else 4
     for tname in ("stream", "jsonfile"):
         for hist in histories(maxlen):
             if hist:
-                jobs.append((("split", root, (tname, hist, 2, 2, "writer", False)), ("split-history", tname, hist), True))
+                jobs.append((("split", root, (tname, hist, 2, 2, "writer", False, "abs")), ("split-history", tname, hist), True))
     ctx.notes.append("split: %d matrix cases (N x limit x suffix length x target x closing op x writer|rdump) + histories <= %d on split://" % (nsplit, maxlen))
     nrot = 0
     for tkind, ops, clock, pre, archive in rotation_plan(ctx.tier):
@@ -1113,8 +1163,9 @@ def _describe(meta):
     if meta["kind"] == "history":
         return "history %s on %s" % (" ".join(meta["history"]) or "(open only)", meta["target"])
     if meta["kind"] == "split":
-        return "split %s count=%d suffix-length=%d via %s history %s" % (meta["target"], meta["count"], meta["suffix_length"],
-                                                                     meta["via"], " ".join(meta["history"]))
+        return "split %s (target spelled %s, urlparse %s) count=%d suffix-length=%d via %s history %s" % (
+            meta["target"], meta.get("spelling"), meta.get("urlparse"), meta["count"], meta["suffix_length"], meta["via"],
+            " ".join(meta["history"]))
     return "rotation template=%s ops=%s clock=%s pre-existing=%s" % (meta["template"], meta["ops"], meta["clock"], meta["pre"])
 
 
@@ -1142,7 +1193,8 @@ def run(ctx):
     ctx.coverage["rule"] = (
         "bounded-exhaustive histories over {write A, write B, flush, close, with-exit} (then del) per adapter target "
         "(stream plain/gz/bz2/lz4/zst, jsonfile, jsonl, avro, sqlite (batch 1000 and 2), csvfile, line, text); split matrix "
-        "N x limit x suffix length x target x {with-exit, close, del} x {RecordWriter('split://'), rdump --split} plus all small "
+        "N x limit x suffix length x target x {with-exit, close, del} x {RecordWriter('split://'), rdump --split} x target spelling "
+        "(absolute path, bare relative name, bare name behind split+<adapter>://) plus all small "
         "histories on split://; rotation scenarios = operation sequences over hour buckets and close x clock (stepped, "
         "frozen, same second) x pre-existing files x template.  distinct = distinct (target, history) / split configuration / "
         "rotation scenario; a history is non-trivial when it has at least one operation")
@@ -1218,7 +1270,7 @@ def replay(obj):
             c = history_case(obj["target"], tuple(obj["history"]), str(wd))
         elif kind == "split":
             c = split_case(obj["target"], tuple(obj["history"]), obj["count"], obj["suffix_length"], str(wd), obj.get("via", "writer"),
-                           matrix=obj.get("matrix", True))
+                           matrix=obj.get("matrix", True), spelling=obj.get("spelling", "abs"))
         elif kind == "rotation":
             ops = tuple("C" if o == "C" else (o[0], o[1]) for o in obj["ops"])
             c = rotation_case(obj["template"], ops, obj["clock"], obj["pre"], str(wd), obj.get("archive", False))
